@@ -151,6 +151,30 @@ CLAIMS = {
         technique="TLA+ spec + TLC exhaustive (crash/fault at every step), behaviours replayed with real processes and locks",
         design_ref="6/C14",
     ),
+    "C06": dict(
+        engine="parse",
+        level="model_checking",
+        text='real parses (eager for several selections x worker sets incl. clones/permanent vm/clusters; lazy expansion during real traversals) are recorded as parse events + final snapshot and replayed by TLC against specs/parse/GraphParse.tla: every event is a spec action, structural checks after each, and WellFormed per graph (unique identity, both-ends edges equal to the events, one starting node reaching all, acyclic, exactly one producing parent per required state for the same worker and object, one net and the named vms, clone sources not runnable)',
+        note="selections/worker sets of the shipped sample suite with one variant per vm; generated suites with random setup DAGs are not built in this revision; TLC's role is the evaluation of the spec's invariants over recorded parses (parsing is deterministic)",
+        technique="recorded parse traces of the real parser validated by TLC against a TLA+ specification of well-formed graphs; independent resolver as oracle for C07",
+        design_ref='6/C06',
+    ),
+    "C07": dict(
+        engine="parse",
+        level="model_checking",
+        text="per selection and worker the class-level dependency edges of the real parse are compared by TLC (GraphParse.AsDeclared, OncePerWorker) with the edges derived by an independent resolver that uses only virttest.cartesian_config.Parser on the suite's files (own composition, own per-object parameter view, producers = variants of all..<get> setting the required state, cloning rule for multi-producer dependencies)",
+        note="selections/worker sets of the shipped sample suite with one variant per vm; generated suites with random setup DAGs are not built in this revision; TLC's role is the evaluation of the spec's invariants over recorded parses (parsing is deterministic)",
+        technique="recorded parse traces of the real parser validated by TLC against a TLA+ specification of well-formed graphs; independent resolver as oracle for C07",
+        design_ref='6/C07',
+    ),
+    "C09": dict(
+        engine="parse",
+        level="model_checking",
+        text='TLC (GraphParse.Linked, SameAsReference) validates on real parses: bridging symmetric, complete, only between equivalent nodes of different workers, registers shared; per-worker class sets and edges equal; graphs after real lazy traversals under random schedules have, for every expanded test, exactly the eager dependencies and nothing selected left unexpanded; a second parse equals the first',
+        note="selections/worker sets of the shipped sample suite with one variant per vm; generated suites with random setup DAGs are not built in this revision; TLC's role is the evaluation of the spec's invariants over recorded parses (parsing is deterministic)",
+        technique="recorded parse traces of the real parser validated by TLC against a TLA+ specification of well-formed graphs; independent resolver as oracle for C07",
+        design_ref='6/C09',
+    ),
 }
 
 NOT_YET = "machinery for this property is not built yet in this revision (see DESIGN.md section 9 build order)"
@@ -190,6 +214,8 @@ def build():
                 [p for p in ALL if p in CLAIMS and CLAIMS[p]["engine"] == "sequential-specs"],
              "kind_free_text": "small TLA+ state machines; TLC state graph dumped (-dump dot,actionlabels) and every transition / terminal "
                                "state executed on the real classes with the projected state compared"},
+            {"name": "parse", "path": "/verif/specs/parse", "serves_properties": [p for p in ALL if p in CLAIMS and CLAIMS[p]["engine"] == "parse"],
+             "kind_free_text": "TLA+ specification of well-formed parsed graphs; recorded parse events and snapshots of the real parser validated by TLC"},
             {"name": "traversal", "path": "/verif/specs/traversal", "serves_properties":
                 [p for p in ALL if p in CLAIMS and CLAIMS[p]["engine"] == "traversal"],
              "kind_free_text": "TLA+ model of the multi-worker graph traversal + virtual-time harness driving the real "
